@@ -3,7 +3,7 @@
 use alloc::collections::VecDeque;
 use alloc::sync::Arc;
 use alloc::vec::Vec;
-use core::str::{FromStr, Utf8Error};
+use core::str::FromStr;
 
 use bytes::Bytes;
 use moka::future::Cache;
@@ -16,6 +16,7 @@ use crate::dep::octseq::Octets;
 use crate::dnssec::common::nsec3_hash;
 use crate::rdata::nsec3::{Nsec3Salt, OwnerHash};
 use crate::rdata::{AllRecordData, Nsec, Nsec3};
+use crate::utils::base32;
 
 use super::context::{Config, ValidationState};
 use super::group::ValidatedGroup;
@@ -992,9 +993,10 @@ pub async fn cached_nsec3_hash(
 /// Convert a label to an NSEC3 hash value.
 pub fn nsec3_label_to_hash(
     label: &Label,
-) -> Result<OwnerHash<Vec<u8>>, Utf8Error> {
-    let label_str = core::str::from_utf8(label.as_ref())?;
-    Ok(OwnerHash::<Vec<u8>>::from_str(label_str).expect("should not fail"))
+) -> Result<OwnerHash<Vec<u8>>, base32::DecodeError> {
+    let label_str = core::str::from_utf8(label.as_ref())
+        .map_err(|_| base32::DecodeError::IllegalChar('\u{FFFD}'))?;
+    OwnerHash::<Vec<u8>>::from_str(label_str)
 }
 
 /// Is targethash in the range between ownerhash and nexthash?
